@@ -55,7 +55,10 @@ def storeAt (pos : Nat → Option Nat) : Array UInt8 → List UInt8 → Nat → 
   | a, [], _, n => (a, n)
   | a, b :: bs, k, n =>
     match pos k with
-    | some i => storeAt pos (a.setIfInBounds i b) bs (k + 1) (if i < a.size then n + 1 else n)
+    | some i =>
+      -- (the count is computed first so that the array is uniquely referenced when written)
+      let n' := if i < a.size then n + 1 else n
+      storeAt pos (a.setIfInBounds i b) bs (k + 1) n'
     | none => storeAt pos a bs (k + 1) n
 
 /-- index of the k-th byte of a window write: window columns `c0 … c0+wb-1`, rows `r0 … r0+h-1` -/
@@ -73,7 +76,9 @@ def dtm (u : Uc) (plane : Nat) (bs : List UInt8) : Uc :=
       winPos stride (u.hs / 8) (u.he / 8 + 1 - u.hs / 8) u.vs (u.ve + 1 - u.vs)
     else linPos arr.size
   let r := storeAt pos arr bs 0 0
-  let ep : Episode := { plane, count := bs.length, stored := r.2, startAtOrigin := true }
+  let ep : Episode := { plane, count := bs.length, stored := r.2, startAtOrigin := true,
+                        win := if u.partialOn then (u.hs / 8 * 8, u.vs, u.he / 8 * 8 + 7, u.ve)
+                               else (0, 0, u.width - 1, u.height - 1) }
   if plane = 0 then { u with p1 := r.1, epis := ep :: u.epis }
   else { u with p2 := r.1, epis := ep :: u.epis }
 
@@ -90,7 +95,8 @@ def dtmWin (u : Uc) (plane : Nat) (bs : List UInt8) : Uc :=
     let arr := if plane = 0 then u.p1 else u.p2
     let stride := u.stride2
     let r := storeAt (winPos stride (x / 8) (w / 8) y h) arr rest 0 0
-    let ep : Episode := { plane, count := rest.length, stored := r.2, startAtOrigin := true }
+    let ep : Episode := { plane, count := rest.length, stored := r.2, startAtOrigin := true,
+                          win := (x / 8 * 8, y, x + w - 1, y + h - 1) }
     let u := { u with hs := x, he := x + w - 1, vs := y, ve := y + h - 1, winSet := true }
     if plane = 0 then { u with p1 := r.1, epis := ep :: u.epis }
     else { u with p2 := r.1, epis := ep :: u.epis }
